@@ -22,6 +22,20 @@ package p9p
 
 //@ pure plain(s string) bool = okName(s) && s != ".."
 
+// Stepwise resolution of a list of names as a specification (a left fold, axiomatised by its recursion equations): after
+// the first n names the resolved path is a stack nAt(s,n,0..nCur(s,n)-1) whose first nLo(s,n) elements are "..".
+// "" and "." leave it unchanged, a plain name is pushed, ".." pops a plain element if there is one and is pushed otherwise.
+//@ pure nCur(s []string, n int) int reads E:string
+//@ pure nLo(s []string, n int) int reads E:string
+//@ pure nAt(s []string, n int, j int) string reads E:string
+//@ pure skipName(x string) bool = len(x) == 0 || x == "."
+//@ axiom [normfold] nf_zero: forall s []string :: {nCur(s, 0)} nCur(s, 0) == 0 && nLo(s, 0) == 0
+//@ axiom [normfold] nf_skip: forall s []string, n int, m int :: {nCur(s, n), nCur(s, m)} 0 <= n && n < len(s) && m == n + 1 && skipName(s[n]) ==> nCur(s, m) == nCur(s, n) && nLo(s, m) == nLo(s, n)
+//@ axiom [normfold] nf_pop: forall s []string, n int, m int :: {nCur(s, n), nCur(s, m)} 0 <= n && n < len(s) && m == n + 1 && s[n] == ".." && nCur(s, n) > nLo(s, n) ==> nCur(s, m) == nCur(s, n) - 1 && nLo(s, m) == nLo(s, n)
+//@ axiom [normfold] nf_climb: forall s []string, n int, m int :: {nCur(s, n), nCur(s, m)} 0 <= n && n < len(s) && m == n + 1 && s[n] == ".." && nCur(s, n) <= nLo(s, n) ==> nCur(s, m) == nCur(s, n) + 1 && nLo(s, m) == nLo(s, n) + 1 && nAt(s, m, nCur(s, n)) == ".."
+//@ axiom [normfold] nf_push: forall s []string, n int, m int :: {nCur(s, n), nCur(s, m)} 0 <= n && n < len(s) && m == n + 1 && !skipName(s[n]) && s[n] != ".." ==> nCur(s, m) == nCur(s, n) + 1 && nLo(s, m) == nLo(s, n) && nAt(s, m, nCur(s, n)) == s[n]
+//@ axiom [normfold] nf_keep: forall s []string, n int, m int, j int :: {nAt(s, m, j), nCur(s, n)} 0 <= n && n < len(s) && m == n + 1 && 0 <= j && j < nCur(s, n) && j < nCur(s, m) ==> nAt(s, m, j) == nAt(s, n, j)
+
 //@ func NormalizePath
 //@ timeout 60
 //@ property C16 C20
@@ -35,6 +49,16 @@ package p9p
 //@ loop 1 invariant forall(j, 0, $done, !sep(args[j]))
 //@ loop 1 invariant forall(j, 0, lo, ans[j] == "..") && forall(j, lo, cursor, plain(ans[j]))
 //@ loop 1 invariant forall L int :: 0 <= L && L <= len(args) && forall(j, 0, L, old(args[j]) == "..") && forall(j, L, len(args), plain(old(args[j]))) ==> cursor == $done && lo == min($done, L) && forall(j, 0, $done, ans[j] == old(args[j]))
+
+// NormalizePath computes the stepwise resolution (separate run: the fold axioms are kept away from the other clauses' proofs)
+//@ func NormalizePath#fold
+//@ timeout 60
+//@ property C16
+//@ use normfold pinheaps
+//@ ensures stepwise: result1 >= 0 ==> len(result0) == old(nCur(args, len(args))) && result1 == old(nLo(args, len(args))) && forall(j, 0, len(result0), result0[j] == old(nAt(args, len(args), j)))
+//@ loop 1 invariant 0 <= lo && lo <= cursor && cursor <= $done && $done <= len(args) && len(ans) == len(args) && off(ans) == 0 && fresh(base(ans))
+//@ loop 1 invariant forall(j, 0, len(args), args[j] == old(args[j]))
+//@ loop 1 invariant fold: cursor == inold(nCur(args, $done)) && lo == inold(nLo(args, $done)) && forall(j, 0, cursor, ans[j] == inold(nAt(args, $done, j)))
 
 // Library facts about path/strings used by the path helpers. Trusted here; checked against the real
 // library by exhaustive enumeration up to a stated bound (labelled bounded) in /verif/tools/stdlib_lemmas_test.go.
